@@ -23,7 +23,7 @@ LEVEL = "exploration"
 RULE = (
     "cells = design {paired (one target + one decoy per spectrum, mokapot's own competition), unpaired "
     "(post-competition model)} x learner {svc, tree (ExtraTrees, no bootstrap), knn (distance weighted), linear} x "
-    "folds 2..5, pi1 in {0.2,0.4,0.6}, 300..1500 spectra, rows shuffled, every second replicate with subset_max_train = 55% of the table; per replicate FDP at alpha in "
+    "folds 2..5, pi1 in {0.2,0.4,0.6}, 300..1500 spectra, rows shuffled, every second replicate with subset_max_train = 55% of the table, every third with the prediction streamed in chunks of 37% of the table; per replicate FDP at alpha in "
     "{0.01,0.05,0.1} at PSM and peptide level. small: tiny tables (5..15 true positives) scored directly through "
     "assign_confidence. A cell is VIOLATED iff mean(FDP) - alpha > 0.25*alpha + 0.005 + 6*SE, HELD iff mean(FDP) <= "
     "alpha + 3*SE, otherwise inconclusive (reported, does not fail). Non-trivial = replicate with >= 1 accepted "
@@ -107,8 +107,11 @@ def run_pipeline(case):
             path = psm.write_pin(tab, d / "t.pin")
             # every second replicate trains on a capped subset (another route by which held-out rows can leak)
             cap = int(0.55 * len(tab["df"])) if r % 2 else None
-            out = pipeline.run_brew([path], learner=case["learner"], folds=case["folds"], seed=int(rng.integers(1 << 30)),
-                                    test_fdr=0.05, train_fdr=0.05, max_iter=3, subset_max_train=cap)
+            # every third replicate predicts in several chunks with a short last one
+            sizes = {"CHUNK_SIZE_ROWS_PREDICTION": int(0.37 * len(tab["df"]))} if r % 3 == 2 else {}
+            with core.chunk_sizes(**sizes):
+                out = pipeline.run_brew([path], learner=case["learner"], folds=case["folds"], seed=int(rng.integers(1 << 30)),
+                                        test_fdr=0.05, train_fdr=0.05, max_iter=3, subset_max_train=cap)
             res.count("replicates")
             if out["status"].startswith("crash"):
                 res.violate("crash", out["sig"], msg=out["error"]["msg"], design=case["design"], learner=case["learner"])
